@@ -136,6 +136,9 @@ def run(ctx):
     ctx.rule("C13-R5", "an unknown capsule is skipped whole: type, length and value are consumed before it is dropped")
     shared.capsule_with_frame_table(ctx, "C13-R5")
 
+    ctx.rule("C13-R6", "a skipped element is consumed at its on-wire length, whatever varint width the peer chose")
+    shared.slice_reader_advance(ctx, "C13-R6")
+
     ctx.rule("C13-R4", "unknown settings ignored; reserved and duplicate settings rejected; unknown capsules / non-DATA session frames skipped")
     shared.settings_with_frame_table(ctx, "C13-R4")
     f = A.fn("wtransport_proto::settings::SettingId::is_reserved")
